@@ -52,6 +52,16 @@ model is told `Im <call>` (Cache.Model.astep: the call for the platform active a
 THAT IS ACTIVE at that point of the history (the harness follows the configure_platform calls itself) and asked the
 same question with the same - possibly omitted - platform argument; configure_platform must leave raw() alone.
 
+BOUNDARY VALUES OF THE ARGUMENTS (round 7): the values handed to the mutators include EMPTY lists / dictionaries and
+sections that hold one (set_component_option '#references' [] / '#executors.pre' [] / '#workflowAttributes.shutdownOn' []
+/ '#variables' {} / '#override' {} ..., through the three entry points; variables set to [] / {}; definitions with empty
+sections handed to update_component / add_component) and list-valued options.  In half of these calls the caller goes
+on to fill ITS OWN object right after a query stored the resolved configuration (query, MutateArg of everything it
+handed in, query): a mutator that keeps the caller's object for 'plain' values (nothing to copy) shows as a read-only
+step that changed raw() and as a stored answer that differs from the from-scratch one.  RefPlatGlobal / RefPlatStage
+(the caller's own write through a live dictionary) store a value of the caller's own, so that a later MutateArg is not
+one more live write.  Family 5 of the exhaustive histories + corpus empty_container_args.json.
+
 Not covered: operations that rename a component (option route `name`/`stage`, update_component with another
 identity); values the C04 model does not interpret (array indices, interpreter, memory/qos converters)."""
 import copy
@@ -1275,6 +1285,8 @@ def identity_text(op):
         '%s of stage%s.%s' % (k, src[0], src[1]) for k, src in x.get('parts', []))
 
 
+ARG_SLOT = {'SetCompVar': 4, 'SetOption': 4, 'SetGlobal': 2, 'SetStage': 3, 'SetPlatGlobal': 3, 'SetPlatStage': 4,
+            'RefPlatGlobal': 3, 'RefPlatStage': 4, 'AddComp': 1, 'ReplaceComp': 3}
 READ_ONLY_OPS = ('Query', 'MutateResult', 'MutateArg', 'Invalidate', 'ReadOnly', 'ConfigurePlatform')
 
 
@@ -1416,6 +1428,14 @@ def explore(ctx, cases):
                 ctx.count('argument_identity=%s:%s' % (op[0], 'shares-live-sections' if '@share' in x else
                                                        'live-global-variables' if x['@live'][0] == '@globals' else
                                                        'live-definition' if not x['@live'][2] else 'live-section'))
+            if op[0] in ARG_SLOT and not is_spec(op[ARG_SLOT[op[0]]]):
+                a = op[ARG_SLOT[op[0]]]
+                if is_empty_container(a):
+                    ctx.count('argument_value=%s:empty-%s' % (op[0], type(a).__name__))
+                elif holds_empty_container(a):
+                    ctx.count('argument_value=%s:holds-empty-container' % op[0])
+                elif isinstance(a, list):
+                    ctx.count('argument_value=%s:list' % op[0])
             if op[0] == 'Query':
                 ctx.count('query_outcome=' + ('ok' if o[0] == 'val' else o[1]))
             elif o[0] == 'exc':
@@ -1726,7 +1746,15 @@ def run(ctx):
                 'the operations are configure_platform(p | None | \'\' | unknown) and ~40% of the queries, ~25% of the '
                 'platform setters / live getters and ~30% of the read-only calls omit the platform argument (None or \'\': '
                 'the call is for the platform active at that moment; the from-scratch object is constructed for that '
-                'platform); non-trivial = '
+                'platform); the option routes include list-valued options (references, executors.pre/post, '
+                'workflowAttributes.shutdownOn/restartHookOn) and whole sections (executors, workflowAttributes, override, '
+                'resourceRequest); half of the list values and a quarter of the section values are EMPTY ([] / {}), ~4% of '
+                'the variable values are containers; after half of the calls that were handed an empty container (or a '
+                'definition holding one) the caller fills its own objects right after a query (Query, MutateArg of all '
+                'arguments, Query); + every history of length <= 3 (thorough: 4) over a 7-operation alphabet (a query, '
+                'set_component_option with [] / {} / a section holding [] through flowir.py, conf.py and graph.py, '
+                'set_component_variable with [], MutateArg of all arguments) followed by a sweep (3 queries, MutateArg, 4 '
+                'queries); non-trivial = '
                 'at least two queries and at least one mutator executed while the cache held entries; distinct by '
                 '(document, history)')
     rng = ctx.rng
@@ -1739,9 +1767,12 @@ def run(ctx):
                                      'over %d operations (queries, 3 read-only calls, 2 mutators) on a document with '
                                      'stage-level blueprints, and over %d operations handed live state (argument identity), '
                                      'and over %d operations with omitted platform arguments and configure_platform '
-                                     '(+ a sweep of 7: implicit / explicit queries, configure_platform(None), implicit queries)'
+                                     '(+ a sweep of 7: implicit / explicit queries, configure_platform(None), implicit queries), '
+                                     'and over %d operations handed EMPTY containers through the three entry points of '
+                                     'set_component_option and set_component_variable, with the caller filling its own '
+                                     'objects afterwards (+ a sweep of 8)'
                                      % (3 if quick else 4, len(EX_ALPHABET), len(EX2_ALPHABET), len(EX3_ALPHABET),
-                                        len(EX4_ALPHABET)))
+                                        len(EX4_ALPHABET), len(EX5_ALPHABET)))
     cases += ex
     cases += random_cases(rng, 420 if quick else 2500, 'prefix')
     cases += random_cases(rng, 200 if quick else 1200, 'meta')
